@@ -60,6 +60,14 @@ def unhex(obj):
     return obj
 
 
+def _active_modes():
+    try:
+        from vlib import envmodes
+        return [m for m in envmodes.ACTIVE if m != 'none']
+    except Exception:  # noqa
+        return []
+
+
 class Ctx:
     def __init__(self, prop, tier, seed, shard=0, nshards=1, replay=False):
         self.prop = prop
@@ -150,7 +158,8 @@ class Ctx:
                 'property': self.prop, 'clause': clause,
                 'case': jsonable(case), 'detail': jsonable(detail),
                 'seed': self.seed, 'tier': self.tier,
-                'interp_flags': os.environ.get('VERIF_INTERP_FLAGS', '')})
+                'interp_flags': os.environ.get('VERIF_INTERP_FLAGS', ''),
+                'modes': _active_modes()})
         return True
 
     # ---- (de)serialisation -----------------------------------------
